@@ -59,7 +59,7 @@ def _ro_edge_filter(fa: FA):
         return None
     asm = Assume(fa, atom)
     tests = [n.id for n in fa.cfg.nodes if n.kind == "test" and asm.truth(n.ast, n.id) is not None]
-    return asm.edge_ok, tests
+    return asm.edge_ok, tests, asm
 
 
 def check_guard(ck):
@@ -85,12 +85,13 @@ def check_guard(ck):
             effs = persistent_effect_nodes(ck, fa)
             if name in QUERY_METHODS:
                 continue  # decided by R2 (must have no effect at all)
-            edge_ok, tests = _ro_edge_filter(fa)
+            edge_ok, tests, asm = _ro_edge_filter(fa)
             live = fa.cfg.reach([fa.cfg.entry], edge_ok=edge_ok)
             bad = []
             for (node, desc) in effs:
                 for i in fa.nodes(node):
-                    if i in live:
+                    # reachable, and not in an arm of a conditional expression / behind an `and` / `or` that the flag excludes
+                    if i in live and (isinstance(node, ast.stmt) or asm.evaluated(node, i) is not False):
                         bad.append((node, desc))
                         break
             if effs:
@@ -111,32 +112,46 @@ def check_guard(ck):
                 ck.note(R, fa.key(None, "no-effect"), "no persistent effect in %s" % m.qual)
 
 
+def _flag_by_cases(fa: FA) -> bool:
+    """What self.read_only holds at the normal exit, case by case (the value followed through locals along the ways that are
+    feasible in each case): a given argument (not None) is taken as it is; without one the configuration's 'readonly' is
+    taken, and False when the configuration has none."""
+    def is_none_test(e):
+        return isinstance(e, ast.Compare) and len(e.ops) == 1 and isinstance(e.ops[0], ast.Is) and isinstance(e.left, ast.Name) \
+            and e.left.id == "read_only" and A.is_none(e.comparators[0])
+
+    def has_key_test(e):
+        return isinstance(e, ast.Compare) and len(e.ops) == 1 and isinstance(e.ops[0], ast.In) and A.const_str(e.left) == "readonly"
+
+    def final_texts(asm):
+        IN = asm.IN()
+        ds = [d for d in IN.get(fa.cfg.exit, ()) if d.name == "self.read_only"]
+        if not ds or any(d.kind != "assign" or d.value is None for d in ds):
+            return None
+        out = set()
+        for d in ds:
+            out |= asm.texts(d.value, d.node, IN)
+        return out
+
+    def cfg_read(t):
+        return t.endswith(".get('readonly', False)") or t.endswith("['readonly']")
+
+    given = final_texts(Assume(fa, lambda e: False if is_none_test(e) else None))
+    with_key = final_texts(Assume(fa, lambda e: True if is_none_test(e) else (True if has_key_test(e) else None)))
+    without = final_texts(Assume(fa, lambda e: True if is_none_test(e) else (False if has_key_test(e) else None)))
+    if not given or not with_key or not without:
+        return False
+    return given == {"read_only"} and all(cfg_read(t) for t in with_key) \
+        and all(t.endswith(".get('readonly', False)") or t == "False" for t in without)
+
+
 def check_plumbing(ck):
     R = "C19.R3"
     ck.rule(R, "flag plumbing: the base constructor reads 'readonly' from the configuration and lets the argument "
                "override it; every backend constructor forwards its read_only parameter", 3)
     fa = FA(ck, "storage.StorageBackend.__init__")
-    # decided on what self.read_only finally holds (FA.outcomes): the argument when one was given, else the
-    # configuration's 'readonly' with default False — however the constructor spells that
-    oc = fa.outcomes("self.read_only")
-    ok = False
-    if oc is not None:
-        by_val = {}
-        for (lits, txt) in oc:
-            by_val.setdefault(txt, []).append(lits)
-        arg_cases = by_val.pop("read_only", [])
-        cfg_vals = [t for t in by_val if t.endswith(".get('readonly', False)") or t.endswith("['readonly']")]
-        other = [t for t in by_val if t not in cfg_vals]
-        ok = bool(arg_cases) and bool(cfg_vals) and not other
-        # the argument is taken exactly when it is not None, the configuration otherwise
-        ok = ok and all(("read_only is None", False) in l for l in arg_cases)
-        ok = ok and all(("read_only is None", True) in l for t in cfg_vals for l in by_val[t])
-        # a configuration that lacks the key means False
-        ok = ok and all(t.endswith(".get('readonly', False)") or any(("'readonly' in " in x[0] and x[1]) for l in by_val[t] for x in l) for t in cfg_vals)
-        if not ok and "False" in by_val and cfg_vals:
-            # `config['readonly'] if 'readonly' in config else False`
-            rest = [t for t in other if t != "False"]
-            ok = bool(arg_cases) and not rest and all(("read_only is None", False) in l for l in arg_cases)
+    # decided on what self.read_only finally holds in each case (argument given / not given, configuration with / without the key)
+    ok = _flag_by_cases(fa)
     ck.ob(R, fa.key(None, "config-then-arg"), ok, "read_only = config['readonly'] (default False), then the argument overrides" if ok else
           "the base constructor no longer reads 'readonly' (default False) and lets a non-None argument override it", fa.where())
     for cls in storage_backend_classes(ck):
@@ -144,11 +159,15 @@ def check_plumbing(ck):
         if init is None or "read_only" not in init.params:
             continue
         f2 = FA(ck, init)
-        sup = [c for c in f2.calls("__init__") if isinstance(A.call_recv(c), ast.Call) and A.call_attr(A.call_recv(c)) == "super"]
+        # the base constructor call: super().__init__(..) or <Base>.__init__(self, ..)
+        bases = {b.name for b in ck.repo.mro(cls) if b is not cls}
+        sup = [c for c in f2.calls("__init__") if (isinstance(A.call_recv(c), ast.Call) and A.call_attr(A.call_recv(c)) == "super")
+               or (isinstance(A.call_recv(c), ast.Name) and A.call_recv(c).id in bases and c.args and A.norm(c.args[0]) == "self")]
         bparams = [p_ for p_ in fa.fi.params if p_ != "self"]
 
         def forwarded(c, pname):
-            v = A.arg_or_kw(c, bparams.index(pname), pname) if pname in bparams else A.kwarg(c, pname)
+            shift = 1 if isinstance(A.call_recv(c), ast.Name) else 0      # explicit `self`
+            v = A.arg_or_kw(c, bparams.index(pname) + shift, pname) if pname in bparams else A.kwarg(c, pname)
             if v is None:
                 return False
             return A.norm(v) == pname or (bool(f2.nodes(c)) and f2.xnorm(v, f2.nodes(c)[0]) == pname)
@@ -189,6 +208,27 @@ def _negative_constant(e) -> bool:
     return False
 
 
+def _negative_answer(ck, cls, e, depth=2) -> bool:
+    """a constant negative, or one obtained from the null storage's own queries: `self.q(..)` of a query that answers a
+    constant negative itself, `any(<negative> for ..)` (False for every request, the empty one included)"""
+    if _negative_constant(e):
+        return True
+    if depth <= 0:
+        return False
+    if isinstance(e, ast.Call) and isinstance(e.func, ast.Attribute) and isinstance(e.func.value, ast.Name) and e.func.value.id == "self" \
+            and e.func.attr in QUERY_METHODS and e.func.attr in cls.methods:
+        m = cls.methods[e.func.attr]
+        rets = [st for st in A.all_stmts(m.node) if isinstance(st, ast.Return)]
+        return bool(rets) and all(r.value is not None and _negative_answer(ck, cls, r.value, depth - 1) for r in rets) \
+            and not any(isinstance(st, ast.Raise) for st in A.all_stmts(m.node))
+    if isinstance(e, ast.Call) and isinstance(e.func, ast.Name) and e.func.id == "any" and len(e.args) == 1 and not e.keywords:
+        a = e.args[0]
+        if isinstance(a, (ast.GeneratorExp, ast.ListComp)):
+            return _negative_answer(ck, cls, a.elt, depth) and all(not isinstance(x, ast.Call) or A.call_attr(x) in ("range", "len")
+                                                                   for g in a.generators for x in ast.walk(g.iter))
+    return False
+
+
 def check_null_storage(ck):
     R = "C19.R4"
     ck.rule(R, "null storage: every query returns a constant negative and no method has an effect", 8)
@@ -203,7 +243,9 @@ def check_null_storage(ck):
         fa = FA(ck, m)
         fs, muts, prev = reach_effects(ck, m)
         pm = [x for x in muts if _persist_owner(ck, x[0])]
-        calls = [c for c in fa.calls() if A.call_attr(c) not in PURE_CALLS and not (fa.nodes(c) and log_call(c))]
+        own_q = lambda c: isinstance(c.func, ast.Attribute) and isinstance(c.func.value, ast.Name) and c.func.value.id == "self" \
+            and c.func.attr in QUERY_METHODS and c.func.attr in cls.methods and c.func.attr != name     # noqa: E731 (decided on its own)
+        calls = [c for c in fa.calls() if A.call_attr(c) not in PURE_CALLS + ("any",) and not own_q(c) and not (fa.nodes(c) and log_call(c))]
         ok = not fs and not pm and not calls
         detail = ""
         if name in QUERY_METHODS:
@@ -212,11 +254,28 @@ def check_null_storage(ck):
                     leaves = [r.value]
                     if fa.nodes(r):
                         leaves = [e for (e, _) in Assume(fa, lambda e: None).cases(r.value, fa.nodes(r)[0])]
-                    if not all(_negative_constant(e) for e in leaves):
+                    if not all(_negative_answer(ck, cls, e) for e in leaves):
                         ok = False
                         detail = "returns %s" % A.norm(r.value)
         ck.ob(R, fa.key(None), ok, "constant negative / no effect" if ok else
               "null storage %s is not a constant negative without effects %s" % (name, detail), fa.where())
+
+
+def module_value(tree, e, depth=4):
+    """`e` with a module-level name replaced by the value of its ONE module-level assignment (a constant moved out of a
+    call: `_TYPE = "null"` ... `register(_TYPE, ...)`); anything else is returned as it is."""
+    while isinstance(e, ast.Name) and depth > 0:
+        vals = []
+        for st in tree.body:
+            if isinstance(st, ast.Assign) and any(isinstance(t, ast.Name) and t.id == e.id for t in st.targets):
+                vals.append(st.value)
+            elif isinstance(st, ast.AnnAssign) and isinstance(st.target, ast.Name) and st.target.id == e.id and st.value is not None:
+                vals.append(st.value)
+        if len(vals) != 1:
+            return e
+        e = vals[0]
+        depth -= 1
+    return e
 
 
 def check_null_runner(ck):
@@ -229,12 +288,44 @@ def check_null_runner(ck):
     bad = [q for q in prev if q.endswith("._filter_call") or q == "runner_local.memento_run_local" or q.endswith(".batch_run") and q != fa.qual]
     ck.ob(R, fa.key(None, "no-body"), not bad, "no function body reachable (%d functions explored)" % len(prev) if not bad else
           "the null runner reaches %s via %s" % (bad[0], ck.cg.chain(prev, bad[0])), fa.where())
-    # registered under its own type
+    # registered under its own type: some registration call of the module binds the type name 'null' (a literal, or a
+    # module-level constant that holds it) to this class (by name, or through a module-level alias)
     m = ck.repo.module("runner_null")
-    reg = [n for n in ast.walk(m.tree) if isinstance(n, ast.Call) and A.call_dotted(n) == "RunnerBackend.register"]
-    okr = any(len(c.args) == 2 and A.const_str(c.args[0]) == "null" and A.norm(c.args[1]) == "NullRunnerBackend" for c in reg)
+    reg = [n for n in ast.walk(m.tree) if isinstance(n, ast.Call) and A.call_attr(n) == "register"
+           and (A.call_dotted(n) or "").split(".")[0] in ("RunnerBackend", "NullRunnerBackend")]
+    rp = ck.repo.try_func("runner.RunnerBackend.register")
+    rparams = [p_ for p_ in (rp.params if rp is not None else ["cls", "runner_type", "clazz"]) if p_ not in ("self", "cls")]
+
+    def bound(c):
+        out = {}
+        for i, a in enumerate(c.args):
+            if i < len(rparams) and not isinstance(a, ast.Starred):
+                out[rparams[i]] = a
+        for k in c.keywords:
+            if k.arg:
+                out[k.arg] = k.value
+        return [out.get(p_) for p_ in rparams[:2]]
+
+    okr = False
+    for c in reg:
+        b_ = bound(c)
+        if len(b_) == 2 and b_[0] is not None and b_[1] is not None:
+            t_, k_ = module_value(m.tree, b_[0]), module_value(m.tree, b_[1])
+            if A.const_str(t_) == "null" and A.norm(k_) == "NullRunnerBackend":
+                okr = True
+    # ... and nothing else in the package claims the name (the last registration wins)
+    other = []
+    for om in ck.repo.modules.values():
+        for n in ast.walk(om.tree):
+            if isinstance(n, ast.Call) and A.call_attr(n) == "register" and "Runner" in (A.call_dotted(n) or "").split(".")[0]:
+                b_ = bound(n)
+                if len(b_) == 2 and b_[0] is not None and b_[1] is not None and A.const_str(module_value(om.tree, b_[0])) == "null" \
+                        and A.norm(module_value(om.tree, b_[1])) != "NullRunnerBackend":
+                    other.append((om, n))
+    okr = okr and not other
     ck.ob(R, "runner_null::register", okr, "'null' runner type resolves to NullRunnerBackend" if okr else
-          "the 'null' runner type is not registered to NullRunnerBackend", m.relpath)
+          ("the 'null' runner type is also registered to `%s` (%s:%d): the last registration wins" % (A.norm(bound(other[0][1])[1]), other[0][0].relpath, other[0][1].lineno)
+           if other else "the 'null' runner type is not registered to NullRunnerBackend"), m.relpath)
 
 
 def check(ck):
